@@ -135,6 +135,12 @@ public:
         if(m_fp)//If a file
         {
             std::fseek(m_fp, pos, rel_to);
+            // As in a memory block, the cursor never stays behind the end of the data:
+            // a position taken there would be greater than the size of the file
+            const long target = std::ftell(m_fp);
+            std::fseek(m_fp, 0, SEEK_END);
+            if(target < std::ftell(m_fp))
+                std::fseek(m_fp, target, SEEK_SET);
         }
         else//If a memory block
         {
